@@ -49,11 +49,24 @@ def key_jobs(tier):
     return js
 
 
+JK = ["null", "bool", "number", "string"]
+
+
+def json_jobs(tier):
+    js = []
+    for desc in (0, 1):
+        for ka, kb in ((0, 0), (0, 1), (0, 2), (0, 3), (1, 1), (2, 2), (3, 3)):
+            js.append({"id": f"O6.json.{JK[ka]}.{JK[kb]}.{'desc' if desc else 'asc'}", "func": "VerifH_C17_JSON", "conf": {"ka": ka, "kb": kb, "desc": desc},
+                       "_obligation": "O6", "_covers": ["encoded"], "unwind": 20})
+    return js
+
+
 PROPERTY = {
     "id": "C17",
     "suites": [
         {"name": "keys", "pkg": "internal/keys", "files": ["zz_verif_c17keys.go"], "jobs": key_jobs, "unwind": 40, "witnesses": {"quick": 12, "thorough": 32}},
         {"name": "encoding", "pkg": "internal/encoding", "files": ["zz_verif_c17.go"], "jobs": jobs, "unwind": 12},
+        {"name": "json", "pkg": "internal/encoding", "files": ["zz_verif_c17.go", "zz_verif_c17json.go"], "jobs": json_jobs, "unwind": 20},
     ],
     "bounds": {
         "quick": {"int64/float64/float32/bool": "full width", "string": "length <= 2, arbitrary bytes", "time": "sec in [-2^55,2^55], nsec in [0,1e9)", "suffix bytes": 1, "unwind": 12, "composite keys": "2 fields (int16-range ints, float64, strings <= 2 bytes, bool, each nullable) + doc id, asc/desc per field symbolic", "PrefixEnd": "k <= 3 bytes, x <= 4 bytes"},
@@ -65,5 +78,5 @@ PROPERTY = {
         "the key-value store compares keys with bytes.Compare (corekv contract)",
         "go/ssa lowering, symgo instruction semantics (validated per explored path against a native run), z3",
     ],
-    "outside_claim": ["strings longer than the bound", "JSON-kind values", "array kinds", "composite keys with more than two value components"],
+    "outside_claim": ["strings longer than the bound", "JSON values beyond one property segment with a scalar leaf (objects, arrays: array positions are encoded as 0 by design), the order between JSON leaves of different types other than null", "array kinds", "composite keys with more than two value components"],
 }
